@@ -10,7 +10,8 @@
            transition only where no extension can match, terminal only if no
            byte extends, tags exactly those of the matching alternatives. *)
 From Coq Require Import List NArith Bool Arith.
-From SNT Require Export Base.Outcome Base.Report Automata.Regex Automata.NFA Automata.Build Automata.Compile.
+From SNT Require Export Base.Outcome Base.Report Automata.Regex Automata.NFA Automata.Build Automata.Compile
+  Automata.CompileFast Automata.TagSpec.
 Import ListNotations.
 
 (* ---------- observed data ---------- *)
@@ -184,7 +185,7 @@ Fixpoint obs_spec (sigma : list N) (wf : bool) (ts : list N) (r : regex) (alts :
 
 Definition probe_spec (wf : bool) (e : regex) (p : list N * obs) : bool :=
   obs_spec [] wf (all_tags e) (derivs (fst p) e)
-           (fold_left (fun al c => deriv_alts c al) (fst p) (tagalts e)) (snd p)
+           (fold_left (fun al c => deriv_alts c al) (fst p) (tex e)) (snd p)
   && Bool.eqb (obs_matches (snd p)) (matcher e (fst p)).
 
 Definition bytes_ok (s : list N) : bool := forallb (fun c => N.ltb c 256) s.
@@ -194,10 +195,12 @@ Definition c15_check (c : c15_case) : bool * bool :=
   | Crashed _ => (false, false)         (* building / compiling / stepping never panics *)
   | Skipped _ => (true, true)
   | Built e sigma infa idfa iobs probes consistent =>
-      let wf := tagwf e in
+      (* tags are judged for every expression by the general law (TagLaw.tag_law): tex e *)
+      let wf := true in
       ( consistent
         && nfa_eqb (build e) infa
-        && match compile_default (build e) with
+        (* compile_fast_default = compile_default (CompileFastProofs.compile_fast_default_eq) *)
+        && match compile_fast_default (build e) with
            | Ok d =>
                match canon d with
                | Some cd => list_eqb cstate_eqb cd idfa
@@ -209,7 +212,7 @@ Definition c15_check (c : c15_case) : bool * bool :=
            end,
         consistent
         && bytes_ok sigma && forallb (fun p => bytes_ok (fst p)) probes
-        && obs_spec sigma wf (all_tags e) e (tagalts e) iobs
+        && obs_spec sigma wf (all_tags e) e (tex e) iobs
         && forallb (probe_spec wf e) probes )
   end.
 
